@@ -452,6 +452,35 @@ def xcmp_listing_records(d, tdir, sources):
     return recs
 
 
+def hexasm_exe_records(d, tdir, cases, target):
+    """[(id, record, note)] for assembly sources run through the hexasm EXECUTABLE: `--instrs` listing and the binary written to a
+    regular file (target 'file') or down a pipe (`-o /dev/stdout`, target 'pipe': a stream that cannot seek)"""
+    recs = []
+    for c in cases:
+        sp = os.path.join(d, "hx.S"); open(sp, "w").write(c['src'])
+        b = os.path.join(d, "hx.bin")
+        if os.path.exists(b):
+            os.remove(b)
+        if target == 'file':
+            p = vlib.sh([os.path.join(tdir, "hexasm"), sp, "-o", b], cwd=d, timeout=120)
+            raw = open(b, 'rb').read() if os.path.exists(b) else b""
+        else:
+            p = vlib.sh([os.path.join(tdir, "hexasm"), sp, "-o", "/dev/stdout"], cwd=d, timeout=120)
+            raw = p.stdout
+        if p.returncode != 0 or len(raw) < 4:
+            continue
+        l = vlib.sh([os.path.join(tdir, "hexasm"), sp, "--instrs"], cwd=d, timeout=120)
+        cid = '%s:%s' % (target, c['id'])
+        if l.returncode != 0:
+            recs.append((cid, None, "hexasm --instrs failed where binary emission succeeded"))
+            continue
+        prog, lines, total = parse_listing(l.stdout.decode(errors='replace'))
+        hdr = struct.unpack('<I', raw[:4])[0]
+        img = list(raw[4:4 + 4 * hdr]); img += [0] * max(0, min(4 * hdr, 1 << 20) - len(img))
+        recs.append((cid, {'id': cid, 'prog': strip(prog), 'lprog': strip(prog), 'hdr': hdr, 'img': img, 'haslst': True, 'lst': lines}, None))
+    return recs
+
+
 def layout_cases(tier, d, rng):
     """all cases of the layout families (sources and directive lists only)"""
     thorough = tier != "quick"
